@@ -13,7 +13,7 @@ from .replay_index import universe_of, key_value, _fmt
 
 OP_TAGS = {
     "arith": "C01", "unary": "C07", "read": "C06", "assign_arr": "C05", "assign_num": "C05",
-    "assign_nd": "C05", "assign_whole_nd": "C05", "stack": "C04", "poke": "C15", "poke_dims": "C15",
+    "assign_nd": "C05", "assign_whole_nd": "C05", "stack": "C04", "poke": "C15", "poke_dims": "C15", "inplace_neg": "C15",
     "mutate_nd": "C05,C15", "new_nd": "C15",
 }
 
@@ -86,6 +86,8 @@ def _run(vec, mode):
                     r = x ** 1
                 elif o == "sum_list":
                     r = sum([x])
+                elif o == "apply_neg":
+                    r = x.apply(np.negative)
                 elif o == "full_like":
                     r = FlodymArray.full_like(x, 7.0)
                 elif o == "cast_to":
@@ -101,6 +103,10 @@ def _run(vec, mode):
                     # statement (C15 lists copy, arithmetic, cast_to, full_like, slice reads): decouple
                     r = FlodymArray(dims=r.dims, values=np.array(r.values, copy=True), name=r.name)
                 regs[dst] = r
+            elif op == "inplace_neg":
+                (r,) = args
+                if regs[r].apply(np.negative, inplace=True) is not None:
+                    raise AssertionError("in-place call returned a value")
             elif op == "read":
                 dst, s, key = args
                 regs[dst] = regs[s][pykey(U, key, i)]
